@@ -138,6 +138,10 @@ def _create_files(  # noqa: C901, PLR0912, PLR0913
             _failed.add(dest_path)
             onerror(src_path, dest_path, exc)
 
+        if links and ("hardlink" in links or "symlink" in links):
+            # linking silently skips a destination that already exists
+            failed.update(p for p in dest_paths if fs.lexists(p))
+
         transfer(
             src_fs,
             list(src_paths),
